@@ -16,6 +16,18 @@ SELECT_STATE = {"_update_table": Const(None), "_insert_table": Const(None), "_de
                 "_selects": Sym("nonempty", ("_selects",)), "_select_into": Const(False), "_on_conflict": Const(False)}
 
 
+def _root_self_attr(v):
+    """attribute of the root object a value is read from (through elements / items), else None"""
+    for _ in range(6):
+        if isinstance(v, Sym) and v.kind == "attr" and isinstance(v.args[0], Obj) and v.args[0].root:
+            return v.args[1]
+        if isinstance(v, Sym) and v.kind in ("elem", "item") and v.args:
+            v = v.args[0]
+            continue
+        return None
+    return None
+
+
 def node_attrs(program: Program, c: ClassInfo) -> set[str]:
     """attributes the class itself treats as Nodes: traversed by nodes_ or rewritten by replace_table"""
     out = set()
@@ -29,6 +41,17 @@ def node_attrs(program: Program, c: ClassInfo) -> set[str]:
                 v = n.func.value
                 if isinstance(v, ast.Attribute) and isinstance(v.value, ast.Name) and v.value.id == selfname:
                     out.add(v.attr)
+                elif isinstance(v, ast.Name):
+                    # loop / comprehension variable ranging over self.<attr>
+                    for m2 in ast.walk(f.node):
+                        it = tgt = None
+                        if isinstance(m2, ast.For):
+                            it, tgt = m2.iter, m2.target
+                        elif isinstance(m2, ast.comprehension):
+                            it, tgt = m2.iter, m2.target
+                        if it is not None and any(isinstance(x, ast.Name) and x.id == v.id for x in ast.walk(tgt)) \
+                                and isinstance(it, ast.Attribute) and isinstance(it.value, ast.Name) and it.value.id == selfname:
+                            out.add(it.attr)
     return out
 
 
@@ -121,8 +144,8 @@ def check(program: Program, run: Run) -> None:
             if fc == "inherit":
                 continue
             in_dialect_class = s["cls"].module.short.startswith("dialects.")
-            if fc == "const" and in_dialect_class:
-                continue  # the dialect's own builder fixing its own convention for its own statement
+            if fc == "const" and in_dialect_class and k in ("groupby_alias", "orderby_alias", "as_keyword"):
+                continue  # the dialect's own builder fixing its own policy flag for its own statement
             if k == "parameterizer" and v == ctx.fields.get("parameterizer") and isinstance(v, (Inh, InhOr)):
                 continue
             bad.append((k, v))
@@ -145,11 +168,12 @@ def check(program: Program, run: Run) -> None:
         if not na:
             continue
         for part, conds, in_rep in walk_parts(sk):
-            if isinstance(part, Hole) and isinstance(part.value, Sym) and part.value.kind == "attr" \
-                    and isinstance(part.value.args[0], Obj) and part.value.args[0].root and part.value.args[1] in na:
+            if isinstance(part, Hole) and isinstance(part.value, Sym) and _root_self_attr(part.value) in na:
                 if any(("<class Term>" in show(cd, -20) or "<class Node>" in show(cd, -20)) and "isinstance" in show(cd, -20) for cd in conds):
                     continue  # the formatting branch is taken only after an isinstance test excluded Term/Node
-                a = part.value.args[1]
+                if any("hasattr" in show(cd, -20) and "get_sql" in show(cd, -20) and show(cd, -20).startswith("not") for cd in conds):
+                    continue  # str() only for objects without get_sql
+                a = _root_self_attr(part.value)
                 where = f"{part.src[2]}:{part.src[1]}" if part.src else ""
                 run.ob("C08/R1 child node rendered through get_sql(ctx)", f"{c.qualname}:{a}", False, where=where)
                 run.finding(f"C08/ctx-bypass:{part.src[0] if part.src else c.qualname}:{a}",
